@@ -93,11 +93,14 @@ def partition(ctx):
                 construct='xtuml.load:' + c, key='consumed', msg='%s is consumed by %s' % (c, consumed.get(c)))
     g = lexrules.grammar_of(repo, LD)
     built = {}
+    from .ctorflow import ctor_binding
+    sigs = repo.signatures()
     for p in g.productions:
-        for st in body_without_doc(p.fn):
-            m = pm.match('p[0] = _C(__, __)', st) or pm.match('p[0] = _C(__, __, __)', st) or pm.match('p[0] = _C(*args)', st)
-            if m and isinstance(m['_C'], ast.Name) and m['_C'].id in stmt_classes:
-                built.setdefault(m['_C'].id, set()).add(p.head)
+        if not any(isinstance(n, ast.Name) and n.id in stmt_classes for n in ast.walk(p.fn)):
+            continue
+        cname, binding = ctor_binding(p.fn, set(stmt_classes), sigs, arity={'p[6]': 4, 'p[8]': 4})
+        if cname is not None:
+            built.setdefault(cname, set()).add(p.head)
     alts = [p.syms[0] for p in g.productions if p.head == 'statement']
     heads = set(h for hs in built.values() for h in hs)
     r.check(set(alts) == heads and len(built) == 4, 'every alternative of `statement` builds one of the four statement classes', g.cls,
